@@ -117,7 +117,18 @@ fn explore_graph(lang: Lang, multi: bool, nversions: usize, cap: usize) -> Graph
     foreign.insert("unrelated.txt".into(), b"keep me\n".to_vec());
     let mut seen: BTreeMap<State, usize> = BTreeMap::new();
     let mut queue: VecDeque<(State, usize, Vec<String>)> = VecDeque::new();
-    for st in [empty.clone(), foreign] {
+    // further initial states: a complete earlier output from which one generated file has gone missing
+    let mut initial = vec![empty.clone(), foreign];
+    for f in &fresh {
+        if f.class == "ok" && f.after.len() >= 2 {
+            for gone in f.after.keys() {
+                let mut st = f.after.clone();
+                st.remove(gone);
+                initial.push(st);
+            }
+        }
+    }
+    for st in initial {
         if !seen.contains_key(&st) {
             seen.insert(st.clone(), 0);
             queue.push_back((st, 0, vec![]));
@@ -231,7 +242,7 @@ pub fn run(args: &[String]) -> i32 {
     rep.cov("distinct_nontrivial", json!(states));
     rep.cov("graphs", json!(per_graph));
     rep.cov("exhaustive", json!(true));
-    rep.cov("rule", json!("per (language, mode): breadth-first search over the states of the output location (file name → bytes), starting from the empty location and from one pre-filled with foreign bytes; the actions are `run the real binary on source-tree version v`; explored to closure, which covers run histories of every length over the version alphabet. On every transition: same exit status as a fresh run, every file of the fresh run has the fresh content, a file with unchanged bytes keeps its mtime, a failing run changes nothing."));
+    rep.cov("rule", json!("per (language, mode): breadth-first search over the states of the output location (file name → bytes), starting from the empty location, from one pre-filled with foreign bytes, and from every complete earlier output with one generated file missing; the actions are `run the real binary on source-tree version v`; explored to closure, which covers run histories of every length over the version alphabet. On every transition: same exit status as a fresh run, every file of the fresh run has the fresh content, a file with unchanged bytes keeps its mtime, a failing run changes nothing."));
     rep.assume("the binary reads nothing from the output location except the files it compares against, so equal bytes mean equal futures (mtimes are normalised before each step and checked on each transition)");
     rep.assume("stale files of crates that disappeared are not judged (the property does not ask for deletion)");
     rep.finish()
